@@ -35,7 +35,10 @@
 (* (exhaustive run); "rand" = all dimensions chosen independently (use      *)
 (* -simulate); "big" = a few large fonts; "shapes" = every shape of a       *)
 (* nibble-coded real (sign x 1..9 digits x position of the decimal point)   *)
-(* in every float-typed DICT field (exhaustive run).                        *)
+(* in every float-typed DICT field (exhaustive run); "maxima" = the upper   *)
+(* end, and the value below it, of every count field: 255 / 256 private     *)
+(* dictionaries with FDSelect in long runs, alternating, and on one glyph;  *)
+(* 65534 / 65535 glyphs; CID 65535 (exhaustive run).                        *)
 (***************************************************************************)
 EXTENDS CFFLayoutOps, Json
 
@@ -408,7 +411,11 @@ Ofat1 ==  Vary("n", Ns) \cup Vary("namePat", NamePats) \cup Vary("cidPat", CidPa
      \* one-byte charstrings: the CharStrings INDEX body is n bytes long (offSize 1 -> 2 at 255)
      \cup {[Dflt EXCEPT !.n = n, !.wPat = "eq", !.shapePat = "blank"] : n \in 253..257}
      \cup {[Dflt EXCEPT !.n = 300, !.nfd = 3, !.fdPat = p, !.shapePat = "bulk", !.bulk = 40] : p \in FdPats}
-Ofat == {[x EXCEPT !.kind = k, !.nfd = IF k = "cid" THEN Max2(x.nfd, 2) ELSE 1] : x \in Ofat1, k \in {"simple", "cid"}}
+\* both kinds; a dimension that the other kind ignores is not varied for it (it would give the same font)
+Ofat == {y \in {[x EXCEPT !.kind = k, !.nfd = IF k = "cid" THEN Max2(x.nfd, 2) ELSE 1] : x \in Ofat1, k \in {"simple", "cid"}} :
+           /\ y.kind = "cid" => /\ y.namePat = Dflt.namePat /\ y.encPat = Dflt.encPat
+                                /\ y.encK = Dflt.encK /\ y.nSup = Dflt.nSup
+           /\ y.kind = "simple" => y.cidPat = Dflt.cidPat /\ y.fdPat = Dflt.fdPat}
           \cup {[x EXCEPT !.kind = "cid", !.nfd = 1] : x \in Vary("n", {1, 5})}
 
 \* Pads holds codes 100000 * k + pad, k = 0: simple, k = 1..3: CID-keyed with k font DICTs
@@ -426,12 +433,32 @@ Big == {[Dflt EXCEPT !.kind = k, !.n = n, !.nfd = IF k = "cid" THEN 3 ELSE 1, !.
                        !.shapePat = "blank"] :
                k \in {"simple", "cid"}, n \in {m \in BigNs : m > 60000}}
 
+(* The upper ends of the count / index fields of the property's quantifier and of the format.
+   Every one of them, and the value just below, occurs in a font of every run (mode "maxima"; the
+   encoding counts MaxCodes / MaxSups / 255 ranges are part of "ofat", see EncPatsSat and "allsup"). *)
+MaxPrivate == 256      \* private dictionaries: the FD index is one byte (0..255)
+MaxGlyphs  == 65535    \* glyphs: INDEX count, glyph index, FDSelect sentinel, charset nLeft are 16 bits
+MaxCID     == 65535    \* CIDs are 16 bits
+MaxCodes   == 256      \* codes of an encoding (nCodes / nRanges / nSups are one byte: at most 255)
+MaxSups    == 255
+\* charstrings are one byte each (blank glyphs of the default width), so that these fonts stay small
+Maxima ==
+  \* 255 / 256 private dictionaries; FDSelect in runs of four (the writer's format 3 is shorter: 256 ranges),
+  \* alternating (only format 0 is feasible), and FD index MaxPrivate - 1 on the last glyph alone (2 ranges)
+  {[Dflt EXCEPT !.kind = "cid", !.nfd = f, !.fdPat = p[1], !.n = IF p[2] = 0 THEN 12 ELSE p[2] * f + 8,
+                !.wPat = "eq", !.shapePat = "blank", !.privPat = "none"] :
+     f \in {MaxPrivate - 1, MaxPrivate}, p \in {<<"blocks", 4>>, <<"alt", 2>>, <<"tail", 0>>}}
+  \* 65534 / 65535 glyphs, CIDs up to MaxCID in one run (charset nLeft 65532 / 65533), two long FD runs
+  \cup {[Dflt EXCEPT !.kind = "cid", !.nfd = 2, !.fdPat = "blocks", !.n = n, !.cidPat = "top",
+                   !.wPat = "eq", !.shapePat = "blank", !.privPat = "none"] : n \in {MaxGlyphs - 1, MaxGlyphs}}
+
 \* every shape of a real, in every float-typed DICT field (24 reals per CID-keyed font with 3 FDs)
 RealShapes == {[Dflt EXCEPT !.kind = "cid", !.nfd = 3, !.n = 3, !.fdPat = "alt", !.fmPat = "shapes", !.realSel = k,
                         !.intSel = rot, !.shapePat = "blank", !.privPat = "none"] : k \in 1..ShapeFonts, rot \in 0..23}
 
 Init ==
   /\ CASE Mode = "shapes" -> d \in RealShapes /\ stage = "done"
+       [] Mode = "maxima" -> d \in Maxima /\ stage = "done"
        [] Mode = "ofat"  -> d \in {x \in Ofat : Usable(x)} /\ stage = "done"
        [] Mode = "sweep" -> d \in Sweep /\ stage = "done"
        [] Mode = "big"   -> d \in {x \in Big : Usable(x)} /\ stage = "done"
